@@ -5,7 +5,7 @@ import z3
 
 from symex.case import Case
 from symex.values import SList
-from entity_query_language import an, entity, let, symbolic_mode, concatenate, in_, not_, contains
+from entity_query_language import an, entity, let, symbolic_mode, concatenate, in_, not_, contains, or_, and_
 from props.c16 import Par, Elem
 
 ASSUMPTIONS = [
@@ -13,10 +13,45 @@ ASSUMPTIONS = [
     "object twice (repeated elements); a bare element as attribute value counts as a one-element collection",
     "the single value is compared as a SEQUENCE of identities (order and multiplicity) with the reference concatenation",
 ]
-BOUNDS = {"quick": dict(parents="2-3", candidates=3, outer_domain="candidates + one foreign element"),
+BOUNDS = {"quick": dict(parents="2-3", candidates=3, outer_domain="candidates + one foreign element",
+                        combined="membership with another condition (6 forms); a third selected variable joined with the tested one (5 forms)"),
           "thorough": dict(parents=3, candidates=4)}
 LIMITS = {"quick": dict(max_paths=20000, max_wall=120), "thorough": dict(max_paths=300000, max_wall=900)}
 WALL_BUDGET = {"quick": 420, "thorough": 3200}
+
+
+# membership in the concatenation combined with another condition on the outer variable (which is then already bound when the
+# membership test is reached): kind -> (builder, reference over (member, w > 1))
+COMBINED = {
+    "or_in": (lambda x, c: or_(x.w > 1, in_(x, c)), lambda m, g: m or g),
+    "in_or": (lambda x, c: or_(in_(x, c), x.w > 1), lambda m, g: m or g),
+    "or_not_in": (lambda x, c: or_(x.w > 1, not_(in_(x, c))), lambda m, g: g or not m),
+    "not_and_in": (lambda x, c: not_(and_(x.w > 1, in_(x, c))), lambda m, g: not (g and m)),
+    "and_in": (lambda x, c: and_(x.w > 1, in_(x, c)), lambda m, g: g and m),
+    "or_contains": (lambda x, c: or_(x.w > 1, contains(c, x)), lambda m, g: m or g),
+}
+
+
+# a THIRD variable h (selected) joined with the tested variable y: kind -> (builder, reference over (h.ref is y, member(y)))
+from dataclasses import dataclass as _dc
+from typing import Any as _Any
+from entity_query_language import symbol as _symbol
+
+
+@_symbol
+@_dc(eq=False)
+class Holder:
+    ref: _Any = None
+    name: str = ""
+
+
+HOLDER = {
+    "h_and_not_in": (lambda h, y, c: and_(h.ref == y, not_(in_(y, c))), lambda is_ref, m: is_ref and not m),
+    "h_and_in": (lambda h, y, c: and_(h.ref == y, in_(y, c)), lambda is_ref, m: is_ref and m),
+    "h_not_and_in": (lambda h, y, c: not_(and_(h.ref == y, in_(y, c))), lambda is_ref, m: not (is_ref and m)),
+    "h_or_not_in": (lambda h, y, c: or_(h.ref != y, not_(in_(y, c))), lambda is_ref, m: (not is_ref) or not m),
+    "h_in_and": (lambda h, y, c: and_(in_(y, c), h.ref == y), lambda is_ref, m: is_ref and m),
+}
 
 
 class C17(Case):
@@ -42,6 +77,8 @@ class C17(Case):
         foreign = Elem(w=99, name="foreign")
         outer = base + [foreign]
         data = dict(parents=parents, seq=seq, outer=outer, base=base)
+        if sp["kind"] in HOLDER:
+            data["holders"] = [Holder(ref=outer[mk.choice("h%d.ref" % i, len(outer))], name="h%d" % i) for i in range(2)]
         snapshot = [list(p_.items) if isinstance(p_.items, list) else None for p_ in parents]
         kind = sp["kind"]
         try:
@@ -50,6 +87,13 @@ class C17(Case):
                 conc = concatenate(p.items)
                 if kind == "value":
                     q = an(entity(conc))
+                elif kind in COMBINED:
+                    x = let(Elem, domain=outer)
+                    q = an(entity(x, COMBINED[kind][0](x, conc)))
+                elif kind in HOLDER:
+                    y = let(Elem, domain=outer)
+                    h = let(Holder, domain=data["holders"])
+                    q = an(entity(h, HOLDER[kind][0](h, y, conc)))
                 else:
                     x = let(Elem, domain=outer)
                     c = in_(x, conc) if kind in ("in", "not_in", "not_not_in", "not_not_not_in") else contains(conc, x)
@@ -74,6 +118,8 @@ class C17(Case):
             return next((j for j, e in enumerate(outer) if e is o), -1)
         if self.spec["kind"] == "value":
             return [[ix(o) for o in r] if isinstance(r, (list, tuple)) else ["notalist", repr(type(r))] for r in res]
+        if self.spec["kind"] in HOLDER:
+            return [next((j for j, ho in enumerate(data["holders"]) if ho is o), -1) for o in res]
         return [ix(o) for o in res]
 
     def _slots(self, alg, data):
@@ -117,12 +163,30 @@ class C17(Case):
                 else:
                     want = [next(j for j, e in enumerate(outer) if e is cand) for cand, pres in slots if pres]
                     obs.append((tag + ":value_is_the_ordered_concatenation_with_multiplicity", alg.const(L == want)))
+            elif self.spec["kind"] in HOLDER:
+                # h is selected, y is not: h is returned iff SOME y satisfies the condition (how often is not demanded)
+                ref = HOLDER[self.spec["kind"]][1]
+                obs.append((tag + ":rows_are_holders", alg.const(all(i >= 0 for i in view))))
+                for hi, ho in enumerate(data["holders"]):
+                    ts = []
+                    for yo in outer:
+                        member = alg.or_(*[pres for cand, pres in slots if cand is yo])
+                        is_ref = ho.ref is yo
+                        ts.append(alg.or_(alg.and_(member, alg.const(ref(is_ref, True))), alg.and_(alg.not_(member), alg.const(ref(is_ref, False)))))
+                    obs.append((tag + ":holder_%d" % hi, alg.iff(alg.const(hi in view), alg.or_(*ts))))
             else:
-                neg = self.spec["kind"].count("not_") % 2 == 1
+                kind = self.spec["kind"]
+                neg = kind.count("not_") % 2 == 1
                 obs.append((tag + ":rows_in_outer_domain_order_each_once", alg.const(all(i >= 0 for i in view) and all(a < b for a, b in zip(view, view[1:])))))
                 for m, xo in enumerate(outer):
                     member = alg.or_(*[pres for cand, pres in slots if cand is xo])
-                    want = alg.not_(member) if neg else member
+                    if kind in COMBINED:
+                        ref = COMBINED[kind][1]
+                        # the reference is a Boolean function of (member, xo.w > 1); xo.w is concrete
+                        want = alg.or_(alg.and_(member, alg.const(ref(True, xo.w > 1))),
+                                       alg.and_(alg.not_(member), alg.const(ref(False, xo.w > 1))))
+                    else:
+                        want = alg.not_(member) if neg else member
                     obs.append((tag + ":outer_%d" % m, alg.iff(alg.const(m in view), want)))
         return obs
 
@@ -136,6 +200,11 @@ def shapes(tier, seed):
     nc = 3 if tier == "quick" else 4
     for kind in ("not_not_in", "not_not_contains", "not_not_not_in"):
         out.append(dict(kind=kind, parents=2, cands=nc))
+    for kind in HOLDER:
+        out.append(dict(kind=kind, parents=2, cands=2))
+    for kind in COMBINED:
+        out.append(dict(kind=kind, parents=2, cands=nc))
+        out.append(dict(kind=kind, parents=2, cands=nc, twice=True, lists="real"))
     for kind in ("value", "in", "not_in", "contains", "not_contains"):
         for parents in (1, 2, 3):
             for repeat in (False, True):
